@@ -404,10 +404,14 @@ static int set_global (hawk_rtx_t* rtx, int idx, hawk_nde_var_t* var, hawk_val_t
 			vt = hawk_rtx_valtonum(rtx, val, &l, &r);
 			if (vt <= -1) return -1;
 
+			/* the stored value is used as an index to the two-element arrays
+			 * holding the case-sensitive and case-insensitive regular expressions
+			 * (gbl.fs[], gbl.rs[], hawk_val_rex_t.code[]). it must be 0 or 1.
+			 * any non-zero value turns on case-insensitivity */
 			if (vt == 0)
-				rtx->gbl.ignorecase = ((l > 0)? 1: (l < 0)? -1: 0);
+				rtx->gbl.ignorecase = (l != 0);
 			else
-				rtx->gbl.ignorecase = ((r > 0.0)? 1: (r < 0.0)? -1: 0);
+				rtx->gbl.ignorecase = (r != 0.0);
 			break;
 		}
 
